@@ -6,7 +6,7 @@ Pieces used by harness/props/c12.py:
                  `vobs`; sets `config.vars` / `config.shortcuts`; clears pypyr's caches; restores
                  everything on close.
 * `wire` / `same` / `norm`   deep plain-data snapshot of Python values and comparison with the
-                 model's values (sets are list cells in the model).
+                 model's values (set / tuple cells of the model).
 * `SharedIndex`  the id()-graph of every cached `PipelineDefinition.pipeline`, of `config.vars` and
                  of `config.shortcuts`, as the model's blocks (`defs`, `cfg`) and as a map
                  id(obj) -> model address, so that "which shared objects can this context reach"
@@ -47,7 +47,26 @@ def run_step(context):
     h = HOOK
     if h is not None:
         h(context)
+
+
+def tick(label, value=None):
+    """Called from `!py` expressions (after `pyImport: import vobs`): a hand-off point INSIDE the
+    formatting of a mapping / a foreach list."""
+    h = HOOK
+    if h is not None:
+        h(('tick', label))
+    return value
 '''
+
+
+class PyTag:
+    """A `!py` expression in a generated pipeline (a `pypyr.dsl.PyString` once loaded)."""
+
+    def __init__(self, value):
+        self.value = value
+
+    def __repr__(self):
+        return f'PyTag({self.value!r})'
 
 
 def is_atom(o):
@@ -91,6 +110,8 @@ def wire(o, depth=0):
         return {'set': sorted((wire(x, depth + 1) for x in o), key=canon)}
     if isinstance(o, BaseException):
         return {'o': f'exc:{type(o).__name__}:{o}'}
+    if isinstance(o, PyTag):
+        return {'o': 'PyString', 'value': wire(o.value, depth + 1)}
     val = getattr(o, 'value', None)
     if type(o).__module__.startswith('pypyr.') and val is not None:
         return {'o': f'{type(o).__qualname__}', 'value': wire(val, depth + 1)}
@@ -114,11 +135,15 @@ def norm(w):
 
 
 def same(mw, iw):
-    """Model value `mw` (sets are lists there) against implementation value `iw`."""
+    """Model value `mw` (a set keeps the order in which its members were added) against implementation
+    value `iw`."""
     if isinstance(iw, dict) and 'set' in iw:
-        if not isinstance(mw, list):
+        if not (isinstance(mw, dict) and 'set' in mw):
             return False
-        return sorted(canon(norm(x)) for x in mw) == sorted(canon(norm(x)) for x in iw['set'])
+        return sorted(canon(norm(x)) for x in mw['set']) == sorted(canon(norm(x)) for x in iw['set'])
+    if isinstance(iw, dict) and 't' in iw:
+        return isinstance(mw, dict) and 't' in mw and len(mw['t']) == len(iw['t']) and all(
+            same(a, b) for a, b in zip(mw['t'], iw['t']))
     if isinstance(iw, list):
         return isinstance(mw, list) and len(mw) == len(iw) and all(same(a, b) for a, b in zip(mw, iw))
     if isinstance(iw, dict) and 'd' in iw:
@@ -142,8 +167,10 @@ def block_of_wire(w):
             cells[i] = {'list': [add(y) for y in x]}
         elif isinstance(x, dict) and 'd' in x:
             cells[i] = {'dict': [[key_str(k), add(v)] for k, v in x['d']]}
-        elif isinstance(x, dict) and ('set' in x or 't' in x):
-            cells[i] = {'list': [add(y) for y in (x.get('set') if 'set' in x else x['t'])]}
+        elif isinstance(x, dict) and 'set' in x:
+            cells[i] = {'set': [add(y) for y in x['set']]}
+        elif isinstance(x, dict) and 't' in x:
+            cells[i] = {'tuple': [add(y) for y in x['t']]}
         elif isinstance(x, dict) and 'o' in x:
             cells[i] = {'leaf': 'obj:' + canon(x)}
         else:
@@ -155,6 +182,27 @@ def block_of_wire(w):
 
 def key_str(k):
     return k if isinstance(k, str) else '\x00' + canon(k)
+
+
+def val_wire(w):
+    """Wire value -> the `Val` wire form the driver decodes for step configurations: string keys, a
+    non-data object as the leaf text `block_of_wire` gives it."""
+    if isinstance(w, list):
+        return [val_wire(x) for x in w]
+    if isinstance(w, dict):
+        if 'd' in w:
+            return {'d': [[key_str(k), val_wire(v)] for k, v in w['d']]}
+        if 'set' in w:
+            return {'set': [val_wire(x) for x in w['set']]}
+        if 't' in w:
+            return {'t': [val_wire(x) for x in w['t']]}
+        if 'o' in w:
+            return 'obj:' + canon(w)
+    return w
+
+
+def vw(v):
+    return val_wire(wire(v))
 
 
 # ---------------------------------------------------------------------------------------------
@@ -203,6 +251,10 @@ def graph_block(roots):
         cells.append(None)
         if isinstance(o, cabc.Mapping):
             cells[i] = {'dict': [[key_str(wire(k)), add(v)] for k, v in o.items()]}
+        elif isinstance(o, tuple):
+            cells[i] = {'tuple': [add(x) for x in o]}
+        elif isinstance(o, cabc.Set):
+            cells[i] = {'set': [add(x) for x in sorted(o, key=lambda x: canon(wire(x)))]}
         else:
             cells[i] = {'list': [add(x) for x in o]}
         return i
@@ -288,11 +340,21 @@ class SharedIndex:
         return dict(reg, i=at)
 
     def foreign(self, ctx):
-        """Shared non-atom objects reachable from the context object: (model addresses, labels)."""
-        hits = [i for i in reach([ctx]) if i in self.ref_of]
+        """Shared non-atom objects reachable from the context object: (model addresses of all of them, labels
+        of the MUTABLE ones, labels of those that are immutable all the way down - atom-only tuples,
+        frozensets: sharing them is as harmless as sharing atoms)."""
+        seen = reach([ctx])
+        hits = [i for i in seen if i in self.ref_of]
         refs = sorted((self.ref_of[i] for i in hits), key=canon)
-        labels = sorted((self.label_of[i] for i in hits), key=canon)
-        return refs, labels
+        labels = sorted((self.label_of[i] for i in hits if not deep_immutable(seen[i])), key=canon)
+        frozen = sorted((self.label_of[i] for i in hits if deep_immutable(seen[i])), key=canon)
+        return refs, labels, frozen
+
+
+def deep_immutable(o):
+    if is_atom(o) or isinstance(o, frozenset):
+        return True
+    return isinstance(o, tuple) and all(deep_immutable(x) for x in o)
 
 
 # ---------------------------------------------------------------------------------------------
@@ -308,6 +370,8 @@ def yv(v):
         return '{' + ', '.join(f'{json.dumps(str(k))}: {yv(x)}' for k, x in v.items()) + '}'
     if isinstance(v, (list, tuple)):
         return '[' + ', '.join(yv(x) for x in v) + ']'
+    if isinstance(v, PyTag):
+        return '!py ' + json.dumps(v.value, ensure_ascii=True)
     return json.dumps(v, ensure_ascii=True)
 
 
@@ -343,7 +407,7 @@ ATOMS = [0, 1, 2, 3, 7, 'a', 'b', 'xy', 'q r', True, False, None]
 STEP_KINDS = ['append_in', 'append_ctx', 'add', 'add_in', 'set', 'setf', 'set_ff', 'default', 'merge',
               'contextcopy', 'py_append', 'py_extend', 'py_dictset', 'py_add', 'py_alias', 'py_in',
               'configvars', 'foreach', 'foreach_list', 'foreach_dict', 'foreach_set', 'onerror', 'retry', 'while',
-              'call', 'pype_parent', 'pype_child']
+              'call', 'pype_parent', 'pype_child', 'ticks', 'foreach_probe', 'fail']
 
 
 def gen_atom(rng):
@@ -386,6 +450,27 @@ def py_lit(v):
     return repr(v)
 
 
+def py_unit(*forms):
+    """A `pypyr.steps.py` step as the list of the code forms it is rendered from (`PyForm` of the model)."""
+    return {'i': 'py', 'forms': list(forms)}
+
+
+def F_append(path, w):
+    return {'f': 'append', 'path': list(path), 'w': vw(w)}
+
+
+def F_setitem(path, k, w):
+    return {'f': 'setItem', 'path': list(path), 'k': k, 'w': vw(w)}
+
+
+def F_add(path, a):
+    return {'f': 'add', 'path': list(path), 'a': vw(a)}
+
+
+def F_alias(src, dst):
+    return {'f': 'alias', 'src': src, 'dst': dst}
+
+
 class Emit:
     """Appends steps to one pipeline and the corresponding object-level operations of one run."""
 
@@ -401,6 +486,12 @@ class Emit:
     # -- primitive emissions (operation + the same change on the shadow value) ----------------
     def op(self, o, r=None):
         self.prog.append([self.r if r is None else r, o])
+
+    def unit(self, instr, r=None):
+        """The operations emitted from here on (until the next unit) are this emitter's READING of the
+        step-level unit `instr` (lean/PypyrModel/Heap.lean `Instr`); the driver reads the unit itself
+        (`opsOf`) and the two readings are compared."""
+        self.prog.append(['instr', self.r if r is None else r, instr])
 
     def obs(self):
         self.prog.append(['obs', self.r])
@@ -455,7 +546,7 @@ class Emit:
 
     # -- steps ----------------------------------------------------------------------------
     def step(self, name, inargs, body, foreach=None, retry=None, retry_fail_until=0, while_max=None,
-             on_error=None, swallow=False, fails=None):
+             on_error=None, swallow=False, fails=None, instr=None, unswallowed=False):
         """One step of the pipeline + what running it does to objects.  `foreach`: the items are objects
         of the DEFINITION that the step copies by formatting before `i` is bound to them (operation
         `fmtSetAt`); `fails` (an exception instance) + `swallow`: the body raises it, `Step.save_error`
@@ -476,32 +567,49 @@ class Emit:
         if on_error is not None:
             st['onError'] = on_error
         steps.append(st)
+        if inargs:
+            self.unit({'i': 'enter', 'ins': [[k, {'defn': self.pipe, 'path': [self.group, idx, 'in', k]}] for k in inargs]})
         for k, v in inargs.items():
             self.op({'o': 'inCopy', 'key': k, 'src': {'defn': self.pipe, 'path': [self.group, idx, 'in', k]}})
             self.shadow[k] = copy.deepcopy(v)
 
         def once():
+            if instr is not None:        # None: the body is made of steps of its own (call, pype)
+                self.unit(instr() if callable(instr) else instr)
             body()
             self.obs()
             if fails is not None:
                 self.save_error(idx, name, fails, on_error, swallow)
+            if unswallowed:
+                self.unit({'i': 'raise'})
+                self.op({'o': 'fail'})
+                self.gen.failed = True
+
+        def counter(cname, n):
+            self.unit({'i': 'counter', 'name': cname, 'n': n})
+            self.set_key(cname, n)
         if foreach is not None:
             for j, item in enumerate(foreach):
-                self.op({'o': 'fmtSetAt', 'path': [], 'k': 'i',
-                         'src': {'defn': self.pipe, 'path': [self.group, idx, 'foreach', j]}})
+                src = {'defn': self.pipe, 'path': [self.group, idx, 'foreach', j]}
+                self.unit({'i': 'foreachItem', 'src': src})
+                self.op({'o': 'fmtSetAt', 'path': [], 'k': 'i', 'src': src})
                 self.shadow['i'] = copy.deepcopy(item)
                 once()
         elif retry is not None:
-            self.set_key('retryCounter', 0)
+            counter('retryCounter', 0)
             for n in range(1, retry_fail_until + 1):
-                self.set_key('retryCounter', n)
+                counter('retryCounter', n)
                 once()
         elif while_max is not None:
             for n in range(1, while_max + 1):
-                self.set_key('whileCounter', n)
+                counter('whileCounter', n)
                 once()
         else:
             once()
+        if self.gen.failed:          # the exception went through: the step's `in` arguments stay where they are
+            return st
+        if inargs:
+            self.unit({'i': 'leave', 'keys': list(inargs)})
         for k in inargs:
             self.op({'o': 'unsetIn', 'key': k})
             self.shadow.pop(k, None)
@@ -513,6 +621,8 @@ class Emit:
         parser = 1 if self.gen.pipes[self.pipe].get('parser') else 0
         failure = {'name': type(exc).__name__, 'description': str(exc), 'customError': None,
                    'line': parser + 2 + idx, 'col': 5, 'step': name, 'exception': exc, 'swallowed': swallowed}
+        self.unit({'i': 'saveError', 'failure': vw(failure),
+                   'onError': {'defn': self.pipe, 'path': [self.group, idx, 'onError']} if on_error else None})
         if 'runErrors' not in self.shadow:
             self.set_key('runErrors', [])
         n = len(self.shadow['runErrors'])
@@ -524,8 +634,9 @@ class Emit:
         else:
             self.dict_set(['runErrors', n], 'customError', {})
 
-    def simple(self, name, body):
+    def simple(self, name, body, instr):
         self.steplist().append(name)
+        self.unit(instr)
         body()
         self.obs()
 
@@ -576,7 +687,8 @@ class Emit:
             if unpack:
                 arg['unpack'] = True
             V = gen_val(rng, 2, 'list')
-            self.step('pypyr.steps.append', {K: V, 'append': arg}, lambda: self.append_step(K, W, unpack))
+            self.step('pypyr.steps.append', {K: V, 'append': arg}, lambda: self.append_step(K, W, unpack),
+                      instr={'i': 'append', 'K': K, 'W': vw(W), 'unpack': unpack})
         elif kind == 'append_ctx':
             cands = [p for p in lists if len(p) == 1]
             unpack = rng.random() < 0.3
@@ -585,17 +697,19 @@ class Emit:
             arg = {'list': K, 'addMe': W}
             if unpack:
                 arg['unpack'] = True
-            self.step('pypyr.steps.append', {'append': arg}, lambda: self.append_step(K, W, unpack))
+            self.step('pypyr.steps.append', {'append': arg}, lambda: self.append_step(K, W, unpack),
+                      instr={'i': 'append', 'K': K, 'W': vw(W), 'unpack': unpack})
         elif kind == 'add':
             cands = [p for p in sets if len(p) == 1]
             a = gen_hashable(rng)
             K = rng.choice(cands)[0] if cands and rng.random() < 0.8 else self.fresh_key('s')
-            self.step('pypyr.steps.add', {'add': {'set': K, 'addMe': a}}, lambda: self.add_step(K, a))
+            self.step('pypyr.steps.add', {'add': {'set': K, 'addMe': a}}, lambda: self.add_step(K, a),
+                      instr={'i': 'add', 'K': K, 'a': vw(a)})
         elif kind == 'add_in':        # a set given under `in` (yaml !!set), added to in place
             K = self.fresh_key('s')
             a = gen_hashable(rng)
             self.step('pypyr.steps.add', {K: gen_val(rng, 1, 'set'), 'add': {'set': K, 'addMe': a}},
-                      lambda: self.add_step(K, a))
+                      lambda: self.add_step(K, a), instr={'i': 'add', 'K': K, 'a': vw(a)})
         elif kind in ('set', 'setf'):
             pairs = {self.fresh_key('k') if rng.random() < 0.7 or not tops else rng.choice(tops)[0]: gen_val(rng, 2)
                      for _ in range(rng.randint(1, 2))}
@@ -607,7 +721,8 @@ class Emit:
                     self.shadow.pop('set', None)
                 for k, v in pairs.items():
                     self.set_key(k, copy.deepcopy(v))
-            self.step('pypyr.steps.' + ('set' if kind == 'set' else 'contextsetf'), {key: pairs}, body)
+            self.step('pypyr.steps.' + ('set' if kind == 'set' else 'contextsetf'), {key: pairs}, body,
+                      instr={'i': kind, 'pairs': [[k, vw(v)] for k, v in pairs.items()]})
         elif kind == 'set_ff':        # '{src:ff}' returns the object itself: aliasing inside the run
             cands = [p for p in tops if is_container(self.node(p))]
             if not cands:
@@ -619,31 +734,37 @@ class Emit:
                 self.op({'o': 'unsetIn', 'key': 'set'})
                 self.shadow.pop('set', None)
                 self.copy_key(src, dst)
-            self.step('pypyr.steps.set', {'set': {dst: '{' + src + ':ff}'}}, body)
+            self.step('pypyr.steps.set', {'set': {dst: '{' + src + ':ff}'}}, body,
+                      instr={'i': 'setff', 'dst': dst, 'src': src})
         elif kind == 'default':
             dfl = self.overlay(dicts, tops)
-            self.step('pypyr.steps.default', {'defaults': dfl}, lambda: self.default_ops([], self.shadow, dfl))
+            self.step('pypyr.steps.default', {'defaults': dfl}, lambda: self.default_ops([], self.shadow, dfl),
+                      instr={'i': 'default', 'v': vw(dfl)})
         elif kind == 'merge':
             add = self.overlay(dicts, tops)
-            self.step('pypyr.steps.contextmerge', {'contextMerge': add}, lambda: self.merge_ops([], self.shadow, add))
+            self.step('pypyr.steps.contextmerge', {'contextMerge': add}, lambda: self.merge_ops([], self.shadow, add),
+                      instr={'i': 'merge', 'v': vw(add)})
         elif kind == 'contextcopy':
             if not tops:
                 return self.emit('set')
             src = rng.choice(tops)[0]
             dst = self.fresh_key('k')
-            self.step('pypyr.steps.contextcopy', {'contextCopy': {dst: src}}, lambda: self.copy_key(src, dst))
+            self.step('pypyr.steps.contextcopy', {'contextCopy': {dst: src}}, lambda: self.copy_key(src, dst),
+                      instr={'i': 'contextcopy', 'dst': dst, 'src': src})
         elif kind == 'py_append':
             if not lists:
                 return self.emit('append_ctx')
             p = rng.choice(lists)
             W = gen_val(rng, 2)
-            self.step('pypyr.steps.py', {'py': f'{self.expr(p)}.append({py_lit(W)})'}, lambda: self.append(p, W))
+            self.step('pypyr.steps.py', {'py': f'{self.expr(p)}.append({py_lit(W)})'}, lambda: self.append(p, W),
+                      instr=py_unit(F_append(p, W)))
         elif kind == 'py_extend':
             if not lists:
                 return self.emit('append_ctx')
             p = rng.choice(lists)
             W = gen_val(rng, 1, 'list')
-            self.step('pypyr.steps.py', {'py': f'{self.expr(p)}.extend({py_lit(W)})'}, lambda: self.extend(p, W))
+            self.step('pypyr.steps.py', {'py': f'{self.expr(p)}.extend({py_lit(W)})'}, lambda: self.extend(p, W),
+                      instr=py_unit({'f': 'extend', 'path': list(p), 'ws': [vw(x) for x in W]}))
         elif kind == 'py_dictset':
             if not dicts:
                 return self.emit('set')
@@ -654,20 +775,22 @@ class Emit:
                 k2 = self.fresh_key('m')
             W = gen_val(rng, 2)
             self.step('pypyr.steps.py', {'py': f'{self.expr(p)}[{k2!r}] = {py_lit(W)}'},
-                      lambda: self.dict_set(p, k2, W))
+                      lambda: self.dict_set(p, k2, W), instr=py_unit(F_setitem(p, k2, W)))
         elif kind == 'py_add':
             if not sets:
                 return self.emit('add')
             p = rng.choice(sets)
             a = gen_hashable(rng)
-            self.step('pypyr.steps.py', {'py': f'{self.expr(p)}.add({py_lit(a)})'}, lambda: self.add(p, a))
+            self.step('pypyr.steps.py', {'py': f'{self.expr(p)}.add({py_lit(a)})'}, lambda: self.add(p, a),
+                      instr=py_unit(F_add(p, a)))
         elif kind == 'py_alias':
             cands = [p for p in tops if is_container(self.node(p))]
             if not cands:
                 return self.emit('set')
             src = rng.choice(cands)[0]
             dst = self.fresh_key('k')
-            self.step('pypyr.steps.py', {'py': f"{dst} = {src}\nsave('{dst}')"}, lambda: self.copy_key(src, dst))
+            self.step('pypyr.steps.py', {'py': f"{dst} = {src}\nsave('{dst}')"}, lambda: self.copy_key(src, dst),
+                      instr=py_unit(F_alias(src, dst)))
         elif kind == 'py_in':         # a container under `in`, mutated by py code and kept under another key
             K, dst = self.fresh_key('l'), self.fresh_key('k')
             V = gen_val(rng, 2, rng.choice(['list', 'dict']))
@@ -675,22 +798,26 @@ class Emit:
             if isinstance(V, list):
                 code = f"{K}.append({py_lit(W)})\n{dst} = {K}\nsave('{dst}')"
 
+                forms = [F_append([K], W), F_alias(K, dst)]
+
                 def body():
                     self.append([K], W)
                     self.copy_key(K, dst)
             else:
                 code = f"{K}['zz'] = {py_lit(W)}\n{dst} = {K}\nsave('{dst}')"
 
+                forms = [F_setitem([K], 'zz', W), F_alias(K, dst)]
+
                 def body():
                     self.dict_set([K], 'zz', W)
                     self.copy_key(K, dst)
-            self.step('pypyr.steps.py', {K: V, 'py': code}, body)
+            self.step('pypyr.steps.py', {K: V, 'py': code}, body, instr=py_unit(*forms))
         elif kind == 'configvars':
             def body():
                 self.op({'o': 'configvarsCopy'})
                 for k, v in self.gen.config['vars'].items():
                     self.shadow[k] = copy.deepcopy(v)
-            self.simple('pypyr.steps.configvars', body)
+            self.simple('pypyr.steps.configvars', body, {'i': 'configvars'})
         elif kind in ('foreach', 'foreach_list', 'foreach_dict', 'foreach_set'):
             # items of the definition (containers, EMPTY ones included, nested) that the step copies by
             # formatting; the body changes the current item IN PLACE through `i` (py, contextmerge
@@ -705,6 +832,7 @@ class Emit:
             def kept():
                 if keep:
                     self.copy_key('i', acc)
+            kforms = [F_alias('i', acc)] if keep else []
             if shape == 'list':
                 items = forced.get('items') or [gen_val(rng, 1, 'list') for _ in range(n)]
                 how = forced.get('how') or rng.choice(['py', 'merge', 'append'])
@@ -712,14 +840,16 @@ class Emit:
                     def body():
                         self.append(['i'], W)
                         kept()
-                    self.step('pypyr.steps.py', {'py': f'i.append({py_lit(W)})' + keep}, body, foreach=items)
+                    self.step('pypyr.steps.py', {'py': f'i.append({py_lit(W)})' + keep}, body, foreach=items,
+                              instr=py_unit(F_append(['i'], W), *kforms))
                 elif how == 'merge':
                     add = {'i': gen_val(rng, 1, 'list')}
                     self.step('pypyr.steps.contextmerge', {'contextMerge': add},
-                              lambda: self.merge_ops([], self.shadow, add), foreach=items)
+                              lambda: self.merge_ops([], self.shadow, add), foreach=items, instr={'i': 'merge', 'v': vw(add)})
                 else:
                     self.step('pypyr.steps.append', {'append': {'list': 'i', 'addMe': W}},
-                              lambda: self.append_step('i', W, False), foreach=items)
+                              lambda: self.append_step('i', W, False), foreach=items,
+                              instr={'i': 'append', 'K': 'i', 'W': vw(W), 'unpack': False})
             elif shape == 'dict':
                 items = [{'name': gen_atom(rng), 'done': gen_val(rng, 1, 'list'), 'meta': gen_val(rng, 1, 'dict')}
                          for _ in range(n)]
@@ -731,18 +861,20 @@ class Emit:
                     def body():
                         self.append(['i', 'done'], W)
                         kept()
-                    self.step('pypyr.steps.py', {'py': f"i['done'].append({py_lit(W)})" + keep}, body, foreach=items)
+                    self.step('pypyr.steps.py', {'py': f"i['done'].append({py_lit(W)})" + keep}, body, foreach=items,
+                              instr=py_unit(F_append(['i', 'done'], W), *kforms))
                 elif how == 'py_dict':
                     def body():
                         self.dict_set(['i', 'meta'], 'zz', W)
                         kept()
-                    self.step('pypyr.steps.py', {'py': f"i['meta']['zz'] = {py_lit(W)}" + keep}, body, foreach=items)
+                    self.step('pypyr.steps.py', {'py': f"i['meta']['zz'] = {py_lit(W)}" + keep}, body, foreach=items,
+                              instr=py_unit(F_setitem(['i', 'meta'], 'zz', W), *kforms))
                 else:
                     add = {'i': {'done': gen_val(rng, 1, 'list'), 'meta': {'zz': W}}}
                     if rng.random() < 0.5:
                         add[self.fresh_key('k')] = gen_val(rng, 1)
                     self.step('pypyr.steps.contextmerge', {'contextMerge': add},
-                              lambda: self.merge_ops([], self.shadow, add), foreach=items)
+                              lambda: self.merge_ops([], self.shadow, add), foreach=items, instr={'i': 'merge', 'v': vw(add)})
             else:
                 items = forced.get('items') or [gen_val(rng, 1, 'set') for _ in range(n)]
                 a = gen_hashable(rng)
@@ -750,10 +882,11 @@ class Emit:
                     def body():
                         self.add(['i'], a)
                         kept()
-                    self.step('pypyr.steps.py', {'py': f'i.add({py_lit(a)})' + keep}, body, foreach=items)
+                    self.step('pypyr.steps.py', {'py': f'i.add({py_lit(a)})' + keep}, body, foreach=items,
+                              instr=py_unit(F_add(['i'], a), *kforms))
                 else:
                     self.step('pypyr.steps.add', {'add': {'set': 'i', 'addMe': a}}, lambda: self.add_step('i', a),
-                              foreach=items)
+                              foreach=items, instr={'i': 'add', 'K': 'i', 'a': vw(a)})
         elif kind == 'onerror' and (not isinstance(self.shadow.get('runErrors', []), list) or self.group != 'steps'):
             # an earlier step bound runErrors to something save_error cannot append to / inside a called group
             # (the line number save_error records is only known once the whole file is laid out)
@@ -766,7 +899,8 @@ class Emit:
             E = forced.get('onError', E)
             exc = rng.choice([ValueError('boom'), KeyError('nokey'), RuntimeError('stop 1')])
             code = f'raise {type(exc).__name__}({exc.args[0]!r})'
-            self.step('pypyr.steps.py', {'py': code}, lambda: None, on_error=E, swallow=True, fails=exc)
+            self.step('pypyr.steps.py', {'py': code}, lambda: None, on_error=E, swallow=True, fails=exc,
+                      instr=py_unit({'f': 'raise'}))
             n = len(self.shadow['runErrors']) - 1
             ce = ['runErrors', n, 'customError']
             node = self.node(ce)
@@ -779,10 +913,11 @@ class Emit:
             if targets:
                 p = rng.choice(targets)
                 if isinstance(self.node(p), list):
-                    self.step('pypyr.steps.py', {'py': f'{self.expr(p)}.append({py_lit(W)})'}, lambda: self.append(p, W))
+                    self.step('pypyr.steps.py', {'py': f'{self.expr(p)}.append({py_lit(W)})'}, lambda: self.append(p, W),
+                              instr=py_unit(F_append(p, W)))
                 else:
                     self.step('pypyr.steps.py', {'py': f"{self.expr(p)}['zz'] = {py_lit(W)}"},
-                              lambda: self.dict_set(p, 'zz', W))
+                              lambda: self.dict_set(p, 'zz', W), instr=py_unit(F_setitem(p, 'zz', W)))
         elif kind == 'retry':         # container-valued retry inputs; the first attempt(s) fail
             cands = [p for p in lists if len(p) == 1 and p[0] not in ('whileCounter', 'retryCounter', 'i')]
             if not cands:
@@ -794,7 +929,9 @@ class Emit:
                      'backoffArgs': rng.choice([{'x': [1, 2]}, {'x': []}, {}, {'x': {}, 'y': [[]]}])}
             code = f"{K}.append(retryCounter)\nif retryCounter < {until}:\n    raise ValueError('again')"
             self.step('pypyr.steps.py', {'py': code}, lambda: self.append([K], self.shadow['retryCounter']),
-                      retry=retry, retry_fail_until=until)
+                      retry=retry, retry_fail_until=until,
+                      instr=lambda: py_unit(F_append([K], self.shadow['retryCounter']),
+                                            *([{'f': 'raise'}] if self.shadow['retryCounter'] < until else [])))
         elif kind == 'while':
             cands = [p for p in lists if len(p) == 1 and p[0] not in ('whileCounter', 'retryCounter', 'i')]
             if not cands:
@@ -802,7 +939,8 @@ class Emit:
             K = rng.choice(cands)[0]
             W = gen_val(rng, 1, 'list')
             self.step('pypyr.steps.py', {'py': f"{K}.append([whileCounter] + {py_lit(W)})"},
-                      lambda: self.append([K], [self.shadow['whileCounter']] + W), while_max=rng.randint(1, 3))
+                      lambda: self.append([K], [self.shadow['whileCounter']] + W), while_max=rng.randint(1, 3),
+                      instr=lambda: py_unit(F_append([K], [self.shadow['whileCounter']] + W)))
         elif kind == 'call':
             # `pypyr.steps.call`: Step.invoke_step runs another step group of the same pipeline through
             # `context.current_pipeline.steps_runner` - the runner the running Pipeline object holds
@@ -824,6 +962,7 @@ class Emit:
                     for _ in range(rng.randint(1, 2))}
 
             def body():
+                self.unit({'i': 'setf', 'pairs': [[k, vw(v)] for k, v in args.items()]})
                 for k, v in args.items():
                     self.set_key(k, copy.deepcopy(v))
                 sub = Emit(self.gen, child, self.r, self.shadow, self.prog, self.depth + 1)
@@ -840,6 +979,7 @@ class Emit:
 
             def body():
                 cshadow = copy.deepcopy(args)
+                self.unit({'i': 'ctxStart', 'v': vw(cshadow)}, r=cr)
                 self.op({'o': 'start', 'v': wire(cshadow)}, r=cr)
                 sub = Emit(self.gen, child, cr, cshadow, self.prog, self.depth + 1)
                 sub.emit_many(rng.randint(1, 3))
@@ -848,9 +988,34 @@ class Emit:
                 pype['out'] = outs
                 if isinstance(self.shadow.get('pype'), dict):
                     self.shadow['pype']['out'] = list(outs)
+                self.unit({'i': 'setf', 'pairs': [[k, vw(cshadow[k])] for k in outs]})
                 for k in outs:
                     self.set_key(k, copy.deepcopy(cshadow[k]))
             self.step('pypyr.steps.pype', {'pype': pype}, body)
+        elif kind == 'ticks':
+            # hand-off points INSIDE the formatting of a large mapping: every value of `contextSetf` is a `!py`
+            # expression calling vobs.tick (a no-op without a hook), which a thread scheduler parks at
+            n = rng.randint(5, 12)
+            vals = {self.fresh_key('t'): rng.choice([gen_atom(rng), gen_val(rng, 1, 'list')]) for _ in range(n)}
+            self.step('pypyr.steps.pyimport', {'pyImport': 'import vobs'}, lambda: None, instr=py_unit())
+
+            def body():
+                for k, v in vals.items():
+                    self.set_key(k, copy.deepcopy(v))
+            self.step('pypyr.steps.contextsetf', {'contextSetf': {k: PyTag(f'vobs.tick({k!r}, {py_lit(v)})') for k, v in vals.items()}},
+                      body, instr={'i': 'setf', 'pairs': [[k, vw(v)] for k, v in vals.items()]})
+        elif kind == 'foreach_probe':
+            # hand-off points inside a foreach: the probe step itself runs once per item
+            items = [gen_val(rng, 1, 'list') for _ in range(rng.randint(2, 4))]
+            self.step('vobs', {}, lambda: None, foreach=items, instr=py_unit())
+        elif kind == 'fail' and (self.depth > 0 or not isinstance(self.shadow.get('runErrors', []), list)):
+            return self.emit('set')
+        elif kind == 'fail':
+            # a step that raises and is NOT swallowed: Step.save_error records it, the exception ends the run
+            exc = rng.choice([ValueError('stop here'), KeyError('gone')])
+            code = f'raise {type(exc).__name__}({exc.args[0]!r})'
+            self.step('pypyr.steps.py', {'py': code}, lambda: None, fails=exc, swallow=False, unswallowed=True,
+                      instr=py_unit({'f': 'raise'}))
         else:
             raise ValueError(kind)
 
@@ -902,6 +1067,8 @@ class Emit:
 
     def emit_many(self, n, kinds=None):
         for _ in range(n):
+            if self.gen.failed:
+                break
             pool = kinds or (STEP_KINDS if self.depth == 0 else
                              [k for k in STEP_KINDS if not k.startswith('pype') and k != 'call'])
             self.emit(self.rng.choice(pool))
@@ -918,6 +1085,7 @@ class ProgGen:
         self.nchildrun = 0
         self.ngroup = 0
         self.kinds = []
+        self.failed = False        # the run being generated has raised: nothing more of it is executed
         self.config = config if config is not None else {'vars': {}, 'shortcuts': {}}
 
     def new_child(self):
@@ -936,6 +1104,7 @@ class ProgGen:
         config.shortcuts) or directly. Returns the entry description (JSON-able)."""
         self.pipes[name] = {'parser': parser, 'steps': []}
         self.nchildrun = 0
+        self.failed = False
         prog = []
         sc = self.config['shortcuts'].get(shortcut) if shortcut else None
         eff_in = copy.deepcopy(dict_in) if dict_in is not None else None
@@ -948,6 +1117,8 @@ class ProgGen:
                 eff_in.update(copy.deepcopy(dict_in) if dict_in else {})
         e = Emit(self, name, 0, {}, prog)
         if sc is not None and sc.get('args'):
+            e.unit({'i': 'shortcutArgs', 'src': {'config': ['shortcuts', shortcut, 'args']},
+                    'dictIn': [[k, vw(v)] for k, v in (dict_in or {}).items()]})
             e.op({'o': 'start', 'v': {'d': []}})
             e.op({'o': 'shortcutArgsCopy', 'src': {'config': ['shortcuts', shortcut, 'args']}})
             for k, v in sc['args'].items():
@@ -956,13 +1127,17 @@ class ProgGen:
                 e.set_key(k, copy.deepcopy(v))
         else:
             e.shadow.update(copy.deepcopy(eff_in) if eff_in else {})
+            e.unit({'i': 'ctxStart', 'v': vw(e.shadow)})
             e.op({'o': 'start', 'v': wire(e.shadow)})
         parse_input = not (not context_args and eff_in is not None)
         if parse_input and parser == 'pypyr.parser.list':
+            e.unit({'i': 'parserList', 'args': list(context_args or [])})
             e.set_key('argList', list(context_args or []))
         prog.append(['steps', 0])     # up to here: the caller's Context(...) and _prepare_context; from here: the runner
         if script:
             for kind in script:          # 'kind' or ['kind', {forced choices}]
+                if self.failed:
+                    break
                 if isinstance(kind, str):
                     e.emit(kind)
                 else:
@@ -971,7 +1146,7 @@ class ProgGen:
             e.emit_many(nsteps, kinds)
         e.obs()   # the final context of the run
         return {'run': shortcut or name, 'pipe': name, 'dict_in': wire(dict_in) if dict_in is not None else None,
-                'args_in': args_in, 'prog': prog, 'final': wire(e.shadow)}
+                'args_in': args_in, 'prog': prog, 'final': wire(e.shadow), 'fails': self.failed}
 
 
 def unwire(w):
@@ -991,35 +1166,55 @@ def unwire(w):
 
 
 def instantiate(prog, r, shared, obj=None):
-    """Program with placeholder run ids and symbolic addresses -> one call of the model
-    ({obj, run, pre: [op…], steps: [[null | nested run, op]…]}, `RunHeap.Call`), the number of operations it
-    has, and the positions of the observation points [(index of the last operation before it, run)]."""
-    pre, steps, points = [], [], []
+    """Program with placeholder run ids and symbolic addresses -> one call of the model at STEP granularity
+    ({obj, run, pre: [unit…], steps: [[null | nested run, unit]…]}, `RunHeap.KCall`), the harness's own
+    reading of it as operations [[run, op]…], and the positions of the observation points
+    [(index of the last operation before it, run)]."""
+    kpre, ksteps, flat, points = [], [], [], []
     in_steps = False
+    have_unit = False
 
     def rid(x):
         return r if x == 0 else 100 * r + x
-    for who, o in prog:
+
+    def addr(a):
+        return shared.ref_at(a) if isinstance(a, dict) and ('defn' in a or 'config' in a) else a
+    for ent in prog:
+        who = ent[0]
         if who == 'obs':
-            points.append((len(pre) + len(steps) - 1, rid(o)))
+            points.append((len(flat) - 1, rid(ent[1])))
             continue
         if who == 'steps':
             in_steps = True
             continue
-        o = dict(o)
-        if 'src' in o and isinstance(o['src'], dict) and ('defn' in o['src'] or 'config' in o['src']):
-            o['src'] = shared.ref_at(o['src'])
+        if who == 'instr':
+            _, w, u = ent
+            u = dict(u)
+            if 'src' in u:
+                u['src'] = addr(u['src'])
+            if u.get('onError') is not None:
+                u['onError'] = addr(u['onError'])
+            if 'ins' in u:
+                u['ins'] = [[k, addr(a)] for k, a in u['ins']]
+            if in_steps:
+                ksteps.append([None if w == 0 else rid(w), u])
+            elif w != 0:
+                raise common.Infra('a nested run before the steps of a call')
+            else:
+                kpre.append(u)
+            have_unit = True
+            continue
+        if not have_unit:
+            raise common.Infra('an operation of the generator outside any step-level unit')
+        o = dict(ent[1])
+        if 'src' in o:
+            o['src'] = addr(o['src'])
         if 'v' in o:
             o['b'] = block_of_wire(o.pop('v'))
         if 'vs' in o:
             o['bs'] = [block_of_wire(v) for v in o.pop('vs')]
-        if in_steps:
-            steps.append([None if who == 0 else rid(who), o])
-        elif who != 0:
-            raise common.Infra('a nested run before the steps of a call')
-        else:
-            pre.append(o)
-    return {'obj': r if obj is None else obj, 'run': r, 'pre': pre, 'steps': steps}, len(pre) + len(steps), points
+        flat.append([rid(who), o])
+    return {'obj': r if obj is None else obj, 'run': r, 'pre': kpre, 'steps': ksteps}, flat, points
 
 
 # ---------------------------------------------------------------------------------------------
@@ -1221,6 +1416,7 @@ class StepObserver:
         self.dsl = pypyr.dsl
         self.shared = shared
         self.events = []
+        self.first_ctx = None       # the Context of the outermost run (a failed run returns none to its caller)
         self.orig = getattr(pypyr.dsl.Step, 'invoke_step', None)
         self.active = self.orig is not None
 
@@ -1229,6 +1425,8 @@ class StepObserver:
             obs, orig = self, self.orig
 
             def invoke_step(step, context):
+                if obs.first_ctx is None:
+                    obs.first_ctx = context
                 try:
                     return orig(step, context)
                 finally:
@@ -1237,8 +1435,8 @@ class StepObserver:
         return self
 
     def record(self, context, what):
-        refs, labels = self.shared.foreign(context)
-        self.events.append({'step': what, 'ctx': wire(dict(context)), 'foreign': refs, 'labels': labels})
+        refs, labels, frozen = self.shared.foreign(context)
+        self.events.append({'step': what, 'ctx': wire(dict(context)), 'foreign': refs, 'labels': labels, 'frozen': frozen})
 
     def __exit__(self, *exc):
         if self.active:
@@ -1257,7 +1455,7 @@ class ProbeSched(Sched):
         t = self.tid()
         if t is None:
             return
-        self.traces[t].append(wire(dict(context)))
+        self.traces[t].append({'tick': context[1]} if isinstance(context, tuple) else wire(dict(context)))
         self.park('probe')
 
 
@@ -1268,4 +1466,4 @@ class SoloTrace:
         self.trace = []
 
     def hook(self, context):
-        self.trace.append(wire(dict(context)))
+        self.trace.append({'tick': context[1]} if isinstance(context, tuple) else wire(dict(context)))
